@@ -95,7 +95,35 @@ class Evaluator:
     def kids(self, n):
         return [c for c in n.get("inner", ()) if isinstance(c, dict)]
 
+    def apply_lambda(self, lam, args):
+        node, cenv = lam[1], lam[2]
+        op = None
+        for x in node.get("inner", ()):
+            if isinstance(x, dict) and x.get("kind") == "CXXRecordDecl":
+                for y in x.get("inner", ()):
+                    if isinstance(y, dict) and y.get("kind") in ("CXXMethodDecl", "FunctionTemplateDecl"):
+                        cand = y
+                        if y.get("kind") == "FunctionTemplateDecl":
+                            cand = next((z for z in y.get("inner", ()) if isinstance(z, dict) and z.get("kind") == "CXXMethodDecl"), None)
+                        if cand is not None and cand.get("name") == "operator()" and any(isinstance(z, dict) and z.get("kind") == "CompoundStmt" for z in cand.get("inner", ())):
+                            op = cand
+        if op is None:
+            raise Unknown("lambda without a visible call operator")
+        ps = [c for c in self.kids(op) if c.get("kind") == "ParmVarDecl"]
+        if len(ps) != len(args) or self.depth > 4:
+            raise Unknown("lambda called with %d argument(s)" % len(args))
+        env2 = dict(cenv)
+        for p_, a_ in zip(ps, args):
+            env2[p_["id"]] = a_
+        self.depth += 1
+        try:
+            return self.run_body(op, env2)
+        finally:
+            self.depth -= 1
+
     def as_term(self, v):
+        if v[0] == "lambda":
+            return ("lambda",)
         v = self.deref(v)
         k = v[0]
         if k == "term":
@@ -198,7 +226,7 @@ class Evaluator:
                 return ("opt", self.as_bool(b), self.as_term(a))
             raise Unknown("construction with %d arguments" % len(args))
         if k == "LambdaExpr":
-            return ("term", ("lambda",))
+            return ("lambda", n, env)            # applied when it is called: captures are read from the defining environment
         if k in ("UnresolvedLookupExpr",):
             return ("term", ("ref", n.get("name", "?")))
         if k == "ArraySubscriptExpr":
@@ -281,19 +309,49 @@ class Evaluator:
                 raise Unknown("method %s on a temporary" % name)
             vals = [self.as_term(self.rv(a, env)) for a in args]
             return ("term", self.log_op("call", [self.as_term(m)] + vals))
+        # a callable VALUE: a lambda held in a parameter / local, possibly through std::forward<F>(f)
+        if ck in ("DeclRefExpr", "CallExpr", "ParenExpr"):
+            try:
+                cv = self.ev(callee, env) if ck != "DeclRefExpr" or (callee.get("referencedDecl") or {}).get("id") in env else None
+            except Unknown:
+                cv = None
+            if cv is not None and cv[0] == "lambda":
+                return self.apply_lambda(cv, [self.ev(a, env) for a in args])
         name = callee.get("name") or (callee.get("referencedDecl") or {}).get("name")
         if name is None:
             raise Unknown("call through %s" % ck)
+        # pack expansions among the arguments (all_present(others...)) are spliced
+        flat_args = []
+        for a in args:
+            a0 = a
+            while a0.get("kind") in WRAPPERS and self.kids(a0):
+                a0 = self.kids(a0)[-1]
+            if a0.get("kind") == "PackExpansionExpr":
+                inner = self.kids(a0)[0]
+                while inner.get("kind") in WRAPPERS and self.kids(inner):
+                    inner = self.kids(inner)[-1]
+                pv = env.get((inner.get("referencedDecl") or {}).get("id")) if inner.get("kind") == "DeclRefExpr" else None
+                if isinstance(pv, tuple) and pv and pv[0] == "pack":
+                    flat_args += [("val", x) for x in pv[1]]
+                    continue
+            flat_args.append(("node", a))
         if name in self.helpers and self.depth <= 4:
             for h in self.helpers[name]:
                 ps = [c for c in self.kids(h) if c.get("kind") == "ParmVarDecl"]
-                if len(ps) != len(args):
+                variadic = bool(ps) and ("..." in (ps[-1].get("type") or {}).get("qualType", "") or ps[-1].get("isParameterPack"))
+                if not ((len(ps) == len(flat_args) and not variadic) or (variadic and len(flat_args) >= len(ps) - 1)):
                     continue
+                vals_ = [x[1] if x[0] == "val" else self.ev(x[1], env) for x in flat_args]
                 env2 = {}
                 if "this" in env:
                     env2["this"] = env["this"]
-                for p_, a_ in zip(ps, args):
-                    env2[p_["id"]] = self.ev(a_, env)
+                if variadic:
+                    for p_, a_ in zip(ps[:-1], vals_):
+                        env2[p_["id"]] = a_
+                    env2[ps[-1]["id"]] = ("pack", vals_[len(ps) - 1:])
+                else:
+                    for p_, a_ in zip(ps, vals_):
+                        env2[p_["id"]] = a_
                 self.depth += 1
                 try:
                     return self.run_body(h, env2)
@@ -468,16 +526,21 @@ class Evaluator:
         if then is None or other is None:
             return None
         t0 = ir_sx(kids[0])
-        if t0[0] == "bin" and t0[1] in ("==", "!=") and any(x == ("this",) for x in subterms_(t0)):
-            return None
+        if t0[0] == "bin" and t0[1] in ("==", "!=") and ("this",) in (t0[2], t0[3]) and any(x[0] == "un" and x[1] == "&" for x in subterms_(t0)):
+            return None             # `this == &rhs`: an identity test, handled by the IfStmt case
         try:
             c = self.rv(kids[0], env)
         except Unknown:
             return None
         if self.as_bool(c) is not None:
             return None
-        t = self.ev(self.kids(then)[0], env)
-        f = self.ev(self.kids(other)[0], env)
+        t = self.deref(self.ev(self.kids(then)[0], env))
+        f = self.deref(self.ev(self.kids(other)[0], env))
+        if t[0] == "bool" and f[0] == "bool":
+            # c ? true : false is c itself, c ? k : k is k
+            if t[1] == f[1]:
+                return t
+            return c if t[1] else ("term", ("op", "!", [self.as_term(c)]))
         return ("term", ("op", "?:", [self.as_term(c), self.as_term(t), self.as_term(f)]))
 
     def stmt(self, s, env):
